@@ -224,8 +224,11 @@ func blockPatterns(c int, small bool) [][]int {
 //     remove an attribute; replace an attribute value by each value of Pool;
 //     add an attribute "zz"; add a block "zzb"; remove a block; duplicate a
 //     block; add a label to a block; drop the last label of a block.
+//  3. "labels" family (LabelFamily, labels.go): for every BlockMapSpec /
+//     BlockObjectSpec with two or more label names in the spec, every sequence
+//     of 1..3 blocks whose label vectors are drawn from {x, y}^n.
 //
-// Bodies are de-duplicated by their rendering. tag is "conf" or "pertN".
+// Bodies are de-duplicated by their rendering. tag is "conf", "pertN" or "labels".
 func Bodies(s *Spec, k int, maxConf int, emit func(b *Body, tag string) bool) {
 	seen := map[string]struct{}{}
 	out := func(b *Body, tag string) bool {
@@ -339,6 +342,13 @@ func Bodies(s *Spec, k int, maxConf int, emit func(b *Body, tag string) bool) {
 			}
 		}
 		frontier = next
+	}
+
+	// 3. label-vector family
+	for _, b := range LabelFamily(s) {
+		if !out(b, "labels") {
+			return
+		}
 	}
 }
 
